@@ -201,7 +201,7 @@ func h11LargePattern(pat int) (l1, l2 []int, levels int) {
 			l1 = append(l1, 3*i)
 		}
 		for i := 0; i < n2; i++ {
-			l2 = append(l2, 3*i+1+(i%4))
+			l2 = append(l2, 3*(i+2)+1+(i%2)) // never a multiple of 3, all distinct: no ties unless a pattern adds them
 		}
 	}
 	switch pat {
@@ -228,6 +228,12 @@ func h11LargePattern(pat int) (l1, l2 []int, levels int) {
 	case 7: // 30 v 20 with ties
 		mk(30, 20)
 		l2[3] = l1[4]
+	case 8: // 30 v 30, the only tie lies wholly inside the second sample
+		mk(30, 30)
+		l2[4] = l2[3]
+	case 9: // 30 v 30, the only tie lies wholly inside the first sample
+		mk(30, 30)
+		l1[7] = l1[6]
 	default:
 		panic("no such pattern")
 	}
